@@ -69,3 +69,15 @@ for nm, defs in (("getrandom", ["HAVE_GETRANDOM", "HAVE_SYS_RANDOM_H"]), ("geten
         "assumes": ["libc/OS contract of %s as modelled in stubs/os_entropy.c (32-byte requests are all-or-error)" % nm,
                     "the /dev/urandom read() fallback variant is not selectable on this platform's headers and is out of scope"],
     })
+
+# ---------------------------------------------------------------- derivation protocol, unbounded in the caller data length
+for w, nm, fn in ((1, "feed", "tinyjambu_prng_feed"), (2, "reseed", "tinyjambu_prng_reseed"), (3, "init", "tinyjambu_prng_init_user")):
+    JOBS.append({
+        "name": "prng.%s.proto" % nm, "files": ["harness/h_prng_proto.c", "stubs/mem.c", "stubs/clean_stub.c", PRNG], "defs": ["WHICH=%d" % w],
+        "functions": [fn, "tinyjambu_hash_df (static, inlined)"],
+        "props": ["C15", "C17", "C06"], "default_props": ["C15"],
+        "tags": [(r"^prng df:", ["C15"]), (r"^C15:", ["C15"]), (r"^C17:", ["C17"]), (r"^C15/C17:", ["C15", "C17"])],
+        "unwind": 100, "cost": 10, "mem_gb": 8, "mem_share": 0.3,
+        "unbounded": "every length of the caller data (feed size / personalisation length <= 2^40), every delivery count of the entropy source (all of size_t), arbitrary prior state",
+        "assumes": ["hash API replaced by a protocol-recording contract stub (arbitrary digests); its functional contract: C10/C11"],
+    })
